@@ -20,6 +20,52 @@ pub fn build_results_handled() -> usize {
     BUILD_RESULTS_HANDLED.load(std::sync::atomic::Ordering::SeqCst)
 }
 
+/// hooks H7 (the three target actors, first line of every `select!` arm; after the loop for the arms that only `break`):
+/// a global, ordered log of the events every real actor consumes — `<target>@T` termination, `<target>@I` change notice,
+/// `<target>@<message>` input message, `<target>@D:<C|S|F|X>` build result.  Recording is off unless a mode switches it on.
+static RECORD_EVENTS: std::sync::atomic::AtomicBool = std::sync::atomic::AtomicBool::new(false);
+static EVENT_LOG: std::sync::Mutex<Vec<String>> = std::sync::Mutex::new(Vec::new());
+
+pub fn record_events(on: bool) -> Vec<String> {
+    RECORD_EVENTS.store(on, std::sync::atomic::Ordering::SeqCst);
+    std::mem::take(&mut *EVENT_LOG.lock().unwrap())
+}
+
+pub fn event_log_len() -> usize {
+    EVENT_LOG.lock().unwrap().len()
+}
+
+fn push_event(t: &crate::domain::TargetId, ev: String) {
+    if RECORD_EVENTS.load(std::sync::atomic::Ordering::SeqCst) {
+        EVENT_LOG
+            .lock()
+            .unwrap()
+            .push(format!("{}@{}", t.target_name.trim_start_matches('t'), ev));
+    }
+}
+
+pub fn note_actor_event(t: &crate::domain::TargetId, ev: &str) {
+    push_event(t, ev.to_string());
+}
+
+pub fn note_actor_message(t: &crate::domain::TargetId, m: &crate::engine::verif_access::ActorInputMessage) {
+    push_event(t, modes_gen::m_flow::fmt_msg(m));
+}
+
+pub fn note_actor_build_result(
+    t: &crate::domain::TargetId,
+    r: &anyhow::Result<crate::engine::incremental::IncrementalRunResult>,
+) {
+    use crate::engine::incremental::IncrementalRunResult::*;
+    let c = match r {
+        Err(_) => "F",
+        Ok(Skipped) => "S",
+        Ok(Completed) => "C",
+        Ok(Cancelled) => "X",
+    };
+    push_event(t, format!("D:{}", c));
+}
+
 pub fn dispatch() -> Option<i32> {
     let mode = std::env::var("ZINOMA_VERIF").ok()?;
     let cases = std::env::var("ZINOMA_VERIF_CASES").unwrap_or_default();
